@@ -96,25 +96,29 @@ type Result struct {
 type NativeFunc func(args []Value) []Value
 
 type Interp struct {
-	Width    int
-	MaxSteps int
-	prog     *Program
-	out      strings.Builder
-	steps    int
-	feats    map[string]int
-	overflow bool
-	globals  []map[string]*cell
-	funcs    []map[string]*FuncDecl
-	imports  []map[string]int // alias -> file index (-1 => native)
-	natives  []map[string]string
-	ran      []bool
-	frames   []*frame
-	retVals  []Value
-	FS       map[string][]byte
-	Dirs     map[string]bool
-	Natives  map[string]map[string]NativeFunc // module name -> functions
-	maxSlice int
+	Width       int
+	MaxSteps    int
+	prog        *Program
+	out         strings.Builder
+	steps       int
+	feats       map[string]int
+	overflow    bool
+	globals     []map[string]*cell
+	funcs       []map[string]*FuncDecl
+	imports     []map[string]int // alias -> file index (-1 => native)
+	natives     []map[string]string
+	ran         []bool
+	frames      []*frame
+	retVals     []Value
+	FS          map[string][]byte
+	Dirs        map[string]bool
+	Natives     map[string]map[string]NativeFunc // module name -> functions
+	maxSlice    int
 	switchDepth int
+	Stdin       []string // lines for input()
+	stdinPos    int
+	// AppHook runs a command chain: stages[i] = [name, args...]; returns stdout and exit status.
+	AppHook func(stages [][]string) (string, int)
 }
 
 func Interpret(p *Program, width int, maxSteps int) Result {
@@ -430,9 +434,40 @@ func (it *Interp) eval(fr *frame, e Expr) Value {
 		s := string(data)
 		s = strings.TrimSuffix(s, "\n")
 		return Value{T: TString, S: s}
+	case Input:
+		if x.Prompt != nil {
+			p := it.eval(fr, x.Prompt)
+			_ = p // the prompt goes to the terminal (read -p), not to stdout
+		}
+		it.feat("input")
+		if it.stdinPos >= len(it.Stdin) {
+			it.undef("input at end of stdin")
+		}
+		v := it.Stdin[it.stdinPos]
+		it.stdinPos++
+		return Value{T: TString, S: v}
 	}
 	it.undef("interpreter: unsupported expression %T", e)
 	return Value{}
+}
+
+// evalApp evaluates a command chain used as a value: (stdout, stderr, code).
+func (it *Interp) evalApp(fr *frame, x AppCall) []Value {
+	if it.AppHook == nil {
+		it.undef("interpreter: no command hook")
+	}
+	stages := [][]string{}
+	for _, st := range x.Stages {
+		argv := []string{st.Name}
+		for _, a := range st.Args {
+			argv = append(argv, it.eval(fr, a).S)
+		}
+		stages = append(stages, argv)
+	}
+	it.feat("appcall")
+	out, code := it.AppHook(stages)
+	out = strings.TrimSuffix(out, "\n")
+	return []Value{{T: TString, S: out}, {T: TString}, {T: TInt, I: int64(code)}}
 }
 
 func (it *Interp) noteWriteSelf(fr *frame, k interface{}) {
@@ -584,6 +619,13 @@ func (it *Interp) call(fr *frame, x Call) []Value {
 // evalMulti evaluates a value list that may be a single multi-value call.
 func (it *Interp) evalMulti(fr *frame, values []Expr, want int) []Value {
 	if len(values) == 1 && want > 1 {
+		if a, ok := values[0].(AppCall); ok {
+			vals := it.evalApp(fr, a)
+			if len(vals) != want {
+				it.undef("interpreter: arity mismatch")
+			}
+			return vals
+		}
 		if c, ok := values[0].(Call); ok {
 			it.feat("multivalue")
 			vals := it.call(fr, c)
@@ -732,6 +774,10 @@ func (it *Interp) exec(fr *frame, s Stmt, top bool) ctl {
 		panic(exitErr{1})
 	case ExprStmt:
 		it.beginUnit(fr)
+		if a, ok := x.E.(AppCall); ok {
+			it.evalAppStmt(fr, a)
+			return ctlNone
+		}
 		if c, ok := x.E.(Call); ok {
 			it.feat("callstmt")
 			it.call(fr, c)
@@ -914,4 +960,22 @@ func featureKeys(m map[string]int) []string {
 	}
 	sort.Strings(ks)
 	return ks
+}
+
+// evalAppStmt: a command chain as a statement writes its output to stdout.
+func (it *Interp) evalAppStmt(fr *frame, x AppCall) {
+	if it.AppHook == nil {
+		it.undef("interpreter: no command hook")
+	}
+	stages := [][]string{}
+	for _, st := range x.Stages {
+		argv := []string{st.Name}
+		for _, a := range st.Args {
+			argv = append(argv, it.eval(fr, a).S)
+		}
+		stages = append(stages, argv)
+	}
+	it.feat("appcallstmt")
+	out, _ := it.AppHook(stages)
+	it.out.WriteString(out)
 }
